@@ -15,15 +15,19 @@ THEOREMS = [
     "MySensors.C11.persisted_exact", "MySensors.C11.transient_not_restored",
     "MySensors.C11.pickle_state_contains_transients", "MySensors.C11.setter_values_ok",
     "MySensors.C11.inv_of_bounds", "MySensors.C11.negative_key_counterexample", "MySensors.C11.sample_inv",
+    "MySensors.C11.inv_of_emitInv", "MySensors.C11.reachable_round_trip", "MySensors.C11.nodup_step",
+    "MySensors.C11.round_trip_run",
 ]
 ASSUMPTIONS = [
     "the json and pickle text layers round-trip a tree of dict / list / str / int / bool / None (json: with "
     "every dict key replaced by its str(); integers of at most 4300 digits); the theorems are about the "
     "repo's hooks (MySensorsJSONEncoder.default, dict_to_object, __getstate__/__setstate__, the validating "
     "setters) over that tree; sampled here end to end through the real files",
-    "reachability invariant as an explicit hypothesis: node ids, child ids and value types non-negative "
-    "(JSON only), battery level within 0..100, protocol version a fixed point of safe_is_version; this run "
-    "checks it on every network built by a real gateway; the theorems do not derive it from the gateway model",
+    "reachability invariant (node ids, child ids and value types non-negative, battery level within 0..100, "
+    "protocol version a fixed point of safe_is_version): the per-tree theorems take it as a hypothesis; "
+    "round_trip_run (Properties/C11Reach.lean) derives it from the gateway model for every history of inbound "
+    "lines and controller calls whose ids are integers (Op.carry), by induction over the history; this run also "
+    "checks it on every network built by a real gateway",
     "Python dicts are insertion-ordered association lists with distinct keys; payloads are sequences of "
     "Unicode scalar values (lone surrogates are outside Lean's Char and not generated)",
     "str.isdigit is modelled on the characters the encoder can write (decimal digits); safe_is_version is "
